@@ -64,7 +64,8 @@ Print Assumptions c13_stored_number_roundtrip.
 
 (* ================================================================================================ *)
 (* datetimes, dates, times.  An instant is a number of nanoseconds since the unix epoch; a time zone is ANY function
-   [offset] from unix seconds to the UTC offset (seconds) in force (universally quantified: no zone data is assumed).
+   [offset] from unix seconds to the UTC offset (seconds) in force, together with ANY function [zend] giving the end of
+   the zone period an instant lies in (Time.ZoneBounds) - both universally quantified: no zone data is assumed.
    Years: 0..9999 in the zone the text is written in (the property speaks of 1..9999). *)
 Open Scope Z_scope.
 
@@ -78,19 +79,19 @@ Print Assumptions c13_civil_inverse.
 (* ISO form, exact statement: the rendering of ANY instant in ANY zone is accepted by ToXDateTime in ANY environment
    and yields the instant truncated to microseconds (the rendered precision) plus the seconds of the zone offset,
    which "Z07:00" does not write (0 for every zone whose offset is in whole minutes) *)
-Theorem c13_iso_roundtrip_general : forall (offset offset' : Z -> Z) (e : env) (t : Z),
+Theorem c13_iso_roundtrip_general : forall (offset offset' : Z -> Z) (zend : Z -> option Z) (e : env) (t : Z),
   in_year_range (f_year (fields_of offset t)) -> -86400 < offset (unix_of t) < 86400 ->
-  datetime_from_string offset' e (iso offset t)
+  datetime_from_string offset' zend e (iso offset t)
   = Some (t - t mod 1000 + (offset (unix_of t) - 60 * Z.quot (offset (unix_of t)) 60) * giga).
 Proof. exact iso_roundtrip_general. Qed.
 Print Assumptions c13_iso_roundtrip_general.
 
 (* partial: the round trip proper needs the zone offset at the instant to be in whole minutes
    (missing for the full statement: zones in their local-mean-time era, see c13_iso_roundtrip_refuted) *)
-Theorem c13_iso_roundtrip_partial : forall (offset offset' : Z -> Z) (e : env) (t : Z),
+Theorem c13_iso_roundtrip_partial : forall (offset offset' : Z -> Z) (zend : Z -> option Z) (e : env) (t : Z),
   in_year_range (f_year (fields_of offset t)) -> -86400 < offset (unix_of t) < 86400 ->
   offset (unix_of t) mod 60 = 0 ->
-  datetime_from_string offset' e (iso offset t) = Some (t - t mod 1000).
+  datetime_from_string offset' zend e (iso offset t) = Some (t - t mod 1000).
 Proof. exact iso_roundtrip. Qed.
 Print Assumptions c13_iso_roundtrip_partial.
 
@@ -98,30 +99,30 @@ Print Assumptions c13_iso_roundtrip_partial.
    the re-read instant is 28 s early (KNOWN_FINDINGS: iso-datetime-roundtrip:zone-offset-seconds-dropped) *)
 Theorem c13_iso_roundtrip_refuted : exists (offset : Z -> Z) (e : env) (t : Z),
   in_year_range (f_year (fields_of offset t)) /\ -86400 < offset (unix_of t) < 86400
-  /\ datetime_from_string offset e (iso offset t) = Some (t - 28 * giga).
+  /\ datetime_from_string offset (fun _ => None) e (iso offset t) = Some (t - 28 * giga).
 Proof. exact (ex_intro _ lmt_zone (ex_intro _ _ (ex_intro _ lmt_instant iso_seconds_witness))). Qed.
 Print Assumptions c13_iso_roundtrip_refuted.
 
 (* environment formats (all 3 date formats x 4 time formats, am/pm markers "am"/"pm"), text level, full: Format(env)
    of ANY instant in ANY zone is accepted by ToXDateTime in the same environment, and the fields read back are
    exactly the rendered ones - year, month, day, hour, minute, and the second when the format has it - combined by
-   time.Date in the environment's zone *)
-Theorem c13_envformat_roundtrip : forall (offset : Z -> Z) (e : env) (t : Z),
+   time.Date in the environment's zone ([combine]: with the first instant after the gap when time.Date answers a
+   skipped local time with an earlier one) *)
+Theorem c13_envformat_roundtrip : forall (offset : Z -> Z) (zend : Z -> option Z) (e : env) (t : Z),
   std_markers e -> in_year_range (f_year (fields_of offset t)) ->
   let f := fields_of offset t in
-  datetime_from_string offset e (format_datetime offset e t)
-  = Some (from_wall offset (wall_of (f_year f) (f_month f) (f_day f) (f_hour f) (f_min f) (secs_of (e_tf e) (f_sec f)))
-          * giga).
+  datetime_from_string offset zend e (format_datetime offset e t)
+  = Some (combine offset zend (wall_of (f_year f) (f_month f) (f_day f) (f_hour f) (f_min f) (secs_of (e_tf e) (f_sec f))) 0).
 Proof. exact format_datetime_roundtrip. Qed.
 Print Assumptions c13_envformat_roundtrip.
 
 (* partial: same wall-clock fields at the rendered precision, provided time.Date resolves the rendered local time to
    an instant that reads it (missing: rendered times that fall into a gap of the zone, and other am/pm markers) *)
-Theorem c13_envformat_fields_partial : forall (offset : Z -> Z) (e : env) (t : Z),
+Theorem c13_envformat_fields_partial : forall (offset : Z -> Z) (zend : Z -> option Z) (e : env) (t : Z),
   std_markers e -> in_year_range (f_year (fields_of offset t)) ->
   let f := fields_of offset t in
   resolves offset (wall_of (f_year f) (f_month f) (f_day f) (f_hour f) (f_min f) (secs_of (e_tf e) (f_sec f))) ->
-  exists t', datetime_from_string offset e (format_datetime offset e t) = Some t'
+  exists t', datetime_from_string offset zend e (format_datetime offset e t) = Some t'
              /\ fields_of offset t' = trunc_fields (e_tf e) f.
 Proof. exact format_datetime_fields. Qed.
 Print Assumptions c13_envformat_fields_partial.
@@ -132,21 +133,24 @@ Theorem c13_resolves_when_stable : forall (offset : Z -> Z) (w c : Z),
 Proof. exact resolves_stable. Qed.
 Print Assumptions c13_resolves_when_stable.
 
-(* refuted without it: Africa/Monrovia, 1972-01-07 00:44:35 (the zone jumped from 23:59:59 -0:44:30 to 00:44:30 UTC):
-   "01-07-1972 12:44 am" reads back as 1972-01-06 23:59:30 (KNOWN_FINDINGS: ...:rendered-time-starts-in-zone-gap) *)
-Theorem c13_envformat_fields_refuted : exists (offset : Z -> Z) (e : env) (t : Z),
+(* refuted without it: Asia/Tehran, 1935-06-13 00:04:30 (local clocks jumped from 00:00:00 +3:25:44 to 00:04:16 +3:30):
+   "13-06-1935 00:04" reads back as 00:08:16.  East of UTC time.Date answers a skipped local time with a later one;
+   west of UTC (Africa/Monrovia 1972-01-07, Example west_gap_example) it answers with an earlier one and
+   DateTimeFromString now takes the first instant after the gap, which lies in the rendered minute
+   (KNOWN_FINDINGS: ...:rendered-time-starts-in-zone-gap, the east-of-UTC half that remains) *)
+Theorem c13_envformat_fields_refuted : exists (offset : Z -> Z) (zend : Z -> option Z) (e : env) (t : Z),
   std_markers e /\ in_year_range (f_year (fields_of offset t))
-  /\ fields_of offset t = Fields 1972 1 7 0 44 35 0
-  /\ exists t', datetime_from_string offset e (format_datetime offset e t) = Some t'
-                /\ fields_of offset t' = Fields 1972 1 6 23 59 30 0.
-Proof. exact (ex_intro _ monrovia (ex_intro _ monrovia_env (ex_intro _ monrovia_instant gap_witness))). Qed.
+  /\ fields_of offset t = Fields 1935 6 13 0 4 30 0
+  /\ exists t', datetime_from_string offset zend e (format_datetime offset e t) = Some t'
+                /\ fields_of offset t' = Fields 1935 6 13 0 8 16 0.
+Proof. exact (ex_intro _ tehran (ex_intro _ tehran_zend (ex_intro _ tehran_env (ex_intro _ tehran_instant gap_witness)))). Qed.
 Print Assumptions c13_envformat_fields_refuted.
 
 (* refuted for other am/pm markers: Arabic locale, 17:08 is written "5:08 <U+0645>" and read back as 05:08
    (KNOWN_FINDINGS: ...:localized-ampm-marker-not-recognised) *)
 Theorem c13_envformat_localized_refuted :
   fields_of (fun _ => 0) (1588784889 * giga) = Fields 2020 5 6 17 8 9 0
-  /\ exists t', datetime_from_string (fun _ => 0) ara_env (format_datetime (fun _ => 0) ara_env (1588784889 * giga)) = Some t'
+  /\ exists t', datetime_from_string (fun _ => 0) (fun _ => None) ara_env (format_datetime (fun _ => 0) ara_env (1588784889 * giga)) = Some t'
                 /\ fields_of (fun _ => 0) t' = Fields 2020 5 6 5 8 0 0.
 Proof. exact localized_witness. Qed.
 Print Assumptions c13_envformat_localized_refuted.
@@ -156,12 +160,12 @@ Print Assumptions c13_envformat_localized_refuted.
    hour of the zone, nor within one offset's distance of such a transition - the result is t with exactly the
    unrendered part (nanoseconds, and the seconds for tt:mm and h:mm aa) removed.  Partial: missing are local
    times that occur twice (refuted below) and gaps (refuted above). *)
-Theorem c13_envformat_instant_partial : forall (offset : Z -> Z) (e : env) (t c : Z),
+Theorem c13_envformat_instant_partial : forall (offset : Z -> Z) (zend : Z -> option Z) (e : env) (t c : Z),
   std_markers e -> in_year_range (f_year (fields_of offset t)) ->
   let f := fields_of offset t in
   let w := wall_of (f_year f) (f_month f) (f_day f) (f_hour f) (f_min f) (secs_of (e_tf e) (f_sec f)) in
   offset (unix_of t) = c -> offset w = c -> offset (w - c) = c ->
-  datetime_from_string offset e (format_datetime offset e t)
+  datetime_from_string offset zend e (format_datetime offset e t)
   = Some ((unix_of t - (f_sec f - secs_of (e_tf e) (f_sec f))) * giga).
 Proof. exact (format_datetime_instant_with (Tod 0 0 0 0)). Qed.
 Print Assumptions c13_envformat_instant_partial.
@@ -174,7 +178,7 @@ Theorem c13_envformat_instant_refuted : exists (offset : Z -> Z) (e : env) (t : 
   std_markers e /\ in_year_range (f_year (fields_of offset t))
   /\ (let f := fields_of offset t in
       resolves offset (wall_of (f_year f) (f_month f) (f_day f) (f_hour f) (f_min f) (secs_of (e_tf e) (f_sec f))))
-  /\ datetime_from_string offset e (format_datetime offset e t) = Some (t + 3600 * giga)
+  /\ datetime_from_string offset (fun _ => None) e (format_datetime offset e t) = Some (t + 3600 * giga)
   /\ fields_of offset (t + 3600 * giga) = fields_of offset t.
 Proof. exact (ex_intro _ fold_zone (ex_intro _ fold_env (ex_intro _ fold_instant fold_witness))). Qed.
 Print Assumptions c13_envformat_instant_refuted.
@@ -235,26 +239,32 @@ Print Assumptions c13_jequiv_refl.
 
 (* ================================================================================================ *)
 (* stored field values (flows/field.go FieldValues.Parse keeps the text and, beside it, the number and the datetime
-   the text reads as; the datetime is read with fillTime = true: [fill] is ANY current time of day).  The text form
-   of a number stores that number; the ISO and environment-format texts of a datetime store the same instants as
-   the ToXDateTime theorems above give, whatever the current time. *)
-Theorem c13_field_number : forall (fill : tod) (offset : Z -> Z) (e : env) (d : dec), (int32_min <= dexp d)%Z ->
-  exists d' dt, field_parse fill offset e (render d) = Some (Some d', dt) /\ dec_eq d' d.
+   the text reads as; the datetime is read with fillTime = true - [fill] is ANY current time of day - and kept as it
+   is once marshalled and read back: [as_stored], microseconds and a whole-minute zone offset).  The text form of a
+   number stores that number; the ISO text of a datetime stores the instant the ISO theorem gives; an
+   environment-format text stores the instant the environment-format theorem gives, as stored - the same instant
+   whenever the zone offset there is in whole minutes. *)
+Theorem c13_field_number : forall (fill : tod) (offset : Z -> Z) (zend : Z -> option Z) (e : env) (d : dec),
+  (int32_min <= dexp d)%Z ->
+  exists d' dt, field_parse fill offset zend e (render d) = Some (Some d', dt) /\ dec_eq d' d.
 Proof. exact field_parse_number. Qed.
 Print Assumptions c13_field_number.
 
-Theorem c13_field_datetime : forall (fill : tod) (offset offset' : Z -> Z) (e : env) (t : Z),
+Theorem c13_field_datetime : forall (fill : tod) (offset offset' : Z -> Z) (zend : Z -> option Z) (e : env) (t : Z),
   in_year_range (f_year (fields_of offset t)) -> -86400 < offset (unix_of t) < 86400 ->
-  (exists n, field_parse fill offset' e (iso offset t)
+  (exists n, field_parse fill offset' zend e (iso offset t)
              = Some (n, Some (t - t mod 1000 + (offset (unix_of t) - 60 * Z.quot (offset (unix_of t)) 60) * giga)))
   /\ (std_markers e ->
       let f := fields_of offset t in
-      exists n, field_parse fill offset e (format_datetime offset e t)
-                = Some (n, Some (from_wall offset (wall_of (f_year f) (f_month f) (f_day f) (f_hour f) (f_min f)
-                                                           (secs_of (e_tf e) (f_sec f))) * giga))).
+      let r := combine offset zend (wall_of (f_year f) (f_month f) (f_day f) (f_hour f) (f_min f) (secs_of (e_tf e) (f_sec f))) 0 in
+      exists n, field_parse fill offset zend e (format_datetime offset e t) = Some (n, Some (as_stored (offset (unix_of r)) r))).
 Proof.
-  exact (fun fill offset offset' e t Hy Hoff =>
-           conj (field_parse_iso fill offset offset' e t Hy Hoff)
-                (fun Hm => field_parse_format fill offset e t Hm Hy)).
+  exact (fun fill offset offset' zend e t Hy Hoff =>
+           conj (field_parse_iso fill offset offset' zend e t Hy Hoff)
+                (fun Hm => field_parse_format fill offset zend e t Hm Hy)).
 Qed.
 Print Assumptions c13_field_datetime.
+
+Theorem c13_stored_datetime_whole_minutes : forall off r : Z, off mod 60 = 0 -> r mod 1000 = 0 -> as_stored off r = r.
+Proof. exact as_stored_whole_minutes. Qed.
+Print Assumptions c13_stored_datetime_whole_minutes.
